@@ -4,11 +4,15 @@
 # to a scratch directory), and restores /repo. Prints one line per property.
 set -u
 patch="$1"; shift
+# a change rebased onto the current HEAD of /repo takes precedence over the delivered one
+[ -f "$(dirname "$patch")/patch_rebased.diff" ] && patch="$(dirname "$patch")/patch_rebased.diff"
 props="${*:-C06 C07 C08 C12 C14 C15 C16 C18}"
 cd /verif || exit 2
 if ! git -C /repo diff --quiet; then echo "refusing: /repo has uncommitted changes" >&2; exit 2; fi
-git -C /repo apply "$patch" || { echo "patch does not apply" >&2; exit 2; }
-trap 'git -C /repo checkout -- . ; git -C /repo clean -fdq' EXIT INT TERM
+trap 'git -C /repo reset -q --hard HEAD ; git -C /repo clean -fdq' EXIT INT TERM
+# seeded changes were written against an earlier HEAD of /repo; fall back to a 3-way apply
+git -C /repo apply "$patch" 2>/dev/null || git -C /repo apply --3way "$patch" >/dev/null 2>&1 || { echo "patch does not apply" >&2; exit 2; }
+(cd /repo && GOFLAGS=-mod=mod GOPROXY=off GOSUMDB=off GOTOOLCHAIN=local go build ./... ) || { echo "patched tree does not build" >&2; exit 2; }
 export VERIF_EVIDENCE_DIR=/tmp/mut-evidence
 mkdir -p "$VERIF_EVIDENCE_DIR"
 for p in $props; do
